@@ -3,7 +3,10 @@
 
   A diagram request is   <dom> <cod> <nb> (<prim> <bdom> <bcod>)^nb <no> <off>^no <nv> <val>^nv
     prim  : add | swap | copy | discard | scale:K | aff:M:N:S:B | proj:M:I | pack:M | nest:M | ident:M | fail
-    val   : INT | ( val , ... )          no spaces; `()` empty tuple, `(7)` the 1-tuple
+            | tyc:M:I | const:M:VAL | pick:M:I.I.I  (indices separated by dots, possibly none)
+    val   : INT | <letter>INT | ( val , ... )   no spaces; `()` empty tuple, `(7)` the 1-tuple
+            typed tokens: f3 = float(3), b1 = True, x0 / N0 / s0 / y0 / l0 / d0 / e0 / z0 = entry 0 of
+            the harness's table of other floats / None / str / bytes / list / dict / set / frozenset
   Commands
     ccall <diagram request>     public constructor, then d(*vals)       -> ok <val> | err <class>
     crun  <diagram request>     public constructor, then reference run  -> ok <tuple of wires> | err
@@ -42,15 +45,32 @@ def many {α} (p : P α) : P (List α) := do
     out := out.push (← p)
   pure out.toList
 
+def tyOfLetter : Char → Option Cart.Ty
+  | 'f' => some .float | 'b' => some .bool | 'x' => some .floatx | 'N' => some .none
+  | 's' => some .str | 'y' => some .bytes | 'l' => some .list | 'd' => some .dict
+  | 'e' => some .set | 'z' => some .frozenset | _ => none
+
+def letterOfTy : Cart.Ty → String
+  | .float => "f" | .bool => "b" | .floatx => "x" | .none => "N" | .str => "s" | .bytes => "y"
+  | .list => "l" | .dict => "d" | .set => "e" | .frozenset => "z"
+
 /-- Recursive-descent parser of values over characters, with fuel. -/
 def pVal : Nat → List Char → Option (PyVal × List Char)
   | 0, _ => none
   | fuel + 1, '(' :: cs => pItems fuel cs []
-  | _ + 1, cs =>
-    let digits := cs.takeWhile (fun c => c.isDigit || c == '-')
-    match (String.ofList digits).toInt? with
-    | some i => some (.atom i, cs.drop digits.length)
-    | none => none
+  | _ + 1, c :: cs =>
+    match tyOfLetter c with
+    | some t =>
+      let digits := cs.takeWhile (fun c => c.isDigit || c == '-')
+      match (String.ofList digits).toInt? with
+      | some i => some (.tok t i, cs.drop digits.length)
+      | none => none
+    | none =>
+      let digits := (c :: cs).takeWhile (fun c => c.isDigit || c == '-')
+      match (String.ofList digits).toInt? with
+      | some i => some (.atom i, (c :: cs).drop digits.length)
+      | none => none
+  | _ + 1, [] => none
 where
   pItems : Nat → List Char → List PyVal → Option (PyVal × List Char)
     | 0, _, _ => none
@@ -69,6 +89,7 @@ def val : P PyVal := do
 
 partial def showVal : PyVal → String
   | .atom n => toString n
+  | .tok t n => letterOfTy t ++ toString n
   | .tup xs => "(" ++ ",".intercalate (xs.map showVal) ++ ")"
 
 def prim : P Prim := do
@@ -99,6 +120,18 @@ def prim : P Prim := do
     match m.toNat? with
     | some m => pure (.ident m)
     | none => throw s!"bad prim {t}"
+  | ["tyc", m, i] =>
+    match m.toNat?, i.toNat? with
+    | some m, some i => pure (.tyc m i)
+    | _, _ => throw s!"bad prim {t}"
+  | ["const", m, v] =>
+    match m.toNat?, pVal (2 * v.length + 2) v.toList with
+    | some m, some (v, []) => pure (.const m v)
+    | _, _ => throw s!"bad prim {t}"
+  | ["pick", m, is] =>
+    match m.toNat?, ((is.splitOn ".").filter (· ≠ "")).mapM String.toNat? with
+    | some m, some is => pure (.pick m is)
+    | _, _ => throw s!"bad prim {t}"
   | ["nest", m] =>
     match m.toNat? with
     | some m => pure (.nest m)
